@@ -1,7 +1,7 @@
 (* Extraction of the executable C08 model (ExtrOcamlBasic only). *)
 From Coq Require Import ExtrOcamlBasic.
 From Coq Require Extraction.
-From LJT Require Import model.Partial model.PartialSmooth gen.GenScaling proofs.PartialCtxFinal.
+From LJT Require Import model.Partial model.PartialSmooth model.PartialCols gen.GenScaling proofs.PartialCtxFinal.
 Extraction Language OCaml.
 Extraction "x_c08.ml" derive_config crop_scanline comp_window comp_dsw crop_align run overread row_of_prov
-  first_hazard first_hazard_c c_init a_init crop_reinit_hazard tj_set_region tjscaled jdiv_round_up gen_scale_chain gen_sf gen_DCTSIZE gen_tjMCUWidth gen_tjMCUHeight gen_crop_merged_guard gen_fix_h1 gen_fix_h2 gen_fix_h4 gen_fix_h6 gen_smooth_left_real smooth_left_band smoothing_active ctx_v2_okb.
+  first_hazard first_hazard_c c_init a_init crop_reinit_hazard tj_set_region tjscaled jdiv_round_up gen_scale_chain gen_sf gen_DCTSIZE gen_tjMCUWidth gen_tjMCUHeight gen_crop_merged_guard gen_fix_h1 gen_fix_h2 gen_fix_h4 gen_fix_h6 gen_smooth_left_real recrop_faithful recrop_documented smooth_left_band smoothing_active ctx_v2_okb.
